@@ -44,6 +44,10 @@ def run(ctx: Ctx):
     check_bool_expression(ctx, repo.func(f"{B}.convert_to_bool_expression"))
     check_dimacs(ctx, repo.func(f"{B}.convert_to_dimacs"))
     check_output_result(ctx, repo.func(f"{B}.output_result"))
+    for m_ in (B, Q):
+        orf = repo.maybe_func(f"{m_}.output_result")
+        if orf is not None:
+            ctx.section(check_only_result_written, ctx, orf)
     for mod in (B, Q):
         check_main(ctx, repo.func(f"{mod}.main"))
     check_quasm(ctx, repo.func(f"{Q}.convert_to_quasm"), repo.func(f"{Q}.main"))
@@ -195,6 +199,38 @@ def check_output_result(ctx: Ctx, fi: FuncInfo):
     ifs = [n for n in walk_no_nested(fi.node) if isinstance(n, ast.If) and "form != 'cnf'" in norm(n.test)]
     ok = len(ifs) == 1 and "to_cnf(result" in norm(ifs[0])
     ctx.check(ok, "DP-TABLE", fi, "non-CNF forms are converted before DIMACS printing", "", "", fi.node)
+
+
+def check_only_result_written(ctx: Ctx, fi: FuncInfo):
+    """MP-output: what goes to the chosen destination (-o file or the stream standing for it) is the result and only
+    the result.  A diagnostic written to that stream becomes part of the expression / clause set / QASM text."""
+    outp = next((p_ for p_ in fi.params if "output" in p_ and "format" not in p_), None)
+    if outp is None:
+        raise AnchorError(fi.short, "output destination parameter not found")
+    streams = set()
+    for w in ast.walk(fi.node):
+        if isinstance(w, (ast.With, ast.AsyncWith)):
+            for it in w.items:
+                if it.optional_vars is not None and isinstance(it.optional_vars, ast.Name) and outp in q.names_in(it.context_expr):
+                    streams.add(it.optional_vars.id)
+    role = "only the result is written to the output destination"
+    n = 0
+    for c in q.calls(fi.node):
+        target = None
+        payload = []
+        if isinstance(c.func, ast.Name) and c.func.id == "print":
+            f = next((k.value for k in c.keywords if k.arg == "file"), None)
+            if isinstance(f, ast.Name) and f.id in streams:
+                target, payload = f.id, list(c.args)
+        elif isinstance(c.func, ast.Attribute) and c.func.attr in ("write", "writelines") and isinstance(c.func.value, ast.Name) and c.func.value.id in streams:
+            target, payload = c.func.value.id, list(c.args)
+        if target is None:
+            continue
+        n += 1
+        literal_only = bool(payload) and all(not q.names_in(a) for a in payload)
+        ctx.check(not literal_only, "MP-output", fi, role, norm(c)[:60], f"`{norm(c)[:80]}` writes a fixed message to `{target}`, the stream the result goes to: with -o the message becomes part of the output file (a DIMACS file that starts with a warning line is not a clause set)", c)
+    if not n:
+        ctx.ok("MP-output", fi, role, "no explicit write to the destination stream besides the result", fi.node, nontrivial=False)
 
 
 def argparse_choices(fi: FuncInfo) -> Dict[str, List[str]]:
